@@ -42,6 +42,17 @@ CHECKS['C05'] = {
     'design': 'DESIGN.md section 3 C05',
 }
 
+CHECKS['C06'] = {
+    'technique': 'machine-checked proof in Coq (totality of selium\'s own decoders with explicit panic outcomes) + malformed-input differential in child processes',
+    'text': ("Partial by nature. Proved for ALL byte strings, with slice indexing / get_u64 / get_u8 / split_to / loop fuel as explicit Panic outcomes: the frame decoder "
+             "answers Need/Fail/Got and never panics, reserves no more than it already buffers; the streaming loop terminates; decode_message_batch never panics and "
+             "reserves at most input/8 slots. NOT proved: the internals of bincode and of the five decompression libraries; for those, and to tie the model to the code, "
+             "malformed inputs (truncations, bit flips, adversarial length prefixes, random bytes) are run through every real decoder in child processes under a 1 GiB "
+             "address-space limit; panics and aborts are violations."),
+    'note': "Third-party decoders are exercised, not verified. Subscriber pipeline composition is exercised by the C03 net scenarios.",
+    'design': 'DESIGN.md section 3 C06',
+}
+
 ALL = ['C%02d' % i for i in range(1, 18)]
 
 PENDING_REASON = "check under construction in this session (model and harness not yet committed); it will be claimed once its check is committed"
